@@ -42,20 +42,53 @@ pub struct SubSpec {
     pub mask: u32,
 }
 
-/// the sub-elements of `t` valid in `v`: every listed (name, version-mask) entry whose mask contains v,
-/// resolved with find_sub_element (which must find it; a miss is reported by C18, here it is skipped)
+/// every element name that the lookup of `t` finds in some version (own enumeration over all names, cached per type)
+pub fn lookup_names(t: ElementType) -> std::sync::Arc<Vec<ElementName>> {
+    use std::str::FromStr;
+    use std::sync::{Arc, OnceLock, RwLock};
+    static NAMES: OnceLock<Vec<ElementName>> = OnceLock::new();
+    static CACHE: RwLock<Option<HashMap<ElementType, Arc<Vec<ElementName>>>>> = RwLock::new(None);
+    if let Some(v) = CACHE.read().unwrap().as_ref().and_then(|m| m.get(&t)) {
+        return v.clone();
+    }
+    let names = NAMES.get_or_init(|| ElementName::verif_string_table().iter().filter_map(|s| ElementName::from_str(s).ok()).collect());
+    let v: Arc<Vec<ElementName>> = Arc::new(names.iter().copied().filter(|n| t.find_sub_element(*n, u32::MAX).is_some()).collect());
+    CACHE.write().unwrap().get_or_insert_with(HashMap::new).insert(t, v.clone());
+    v
+}
+
+/// the sub-elements of `t` valid in `v`, in the order of the specification: found by looking up *every* element name with the
+/// version-aware find_sub_element (not by the crate's own listing, whose iterator is part of what is checked; C18 and
+/// `listing_lookup_discrepancies` compare the two routes)
 pub fn sub_specs(t: ElementType, v: AutosarVersion) -> Vec<SubSpec> {
     let mut out: Vec<SubSpec> = vec![];
-    for (name, _st, mask, _named) in t.sub_element_spec_iter() {
-        if !v.compatible(mask) {
-            continue;
+    for name in lookup_names(t).iter() {
+        if let Some((etype, indices)) = t.find_sub_element(*name, v as u32) {
+            let mask = t.get_sub_element_version_mask(&indices).unwrap_or(v as u32);
+            out.push(SubSpec { name: *name, etype, indices, mask });
         }
-        if out.iter().any(|s| s.name == name) {
-            continue;
+    }
+    out.sort_by(|a, b| a.indices.cmp(&b.indices));
+    out
+}
+
+/// where the listing (sub_element_spec_iter) and the lookup (find_sub_element) of a type reachable in `v` disagree about the
+/// sub-elements valid in `v`: (kind, type, name). The walks of C01 / C07 / C08 follow the lookup, so they report these themselves.
+pub fn listing_lookup_discrepancies(r: &Reach) -> Vec<(&'static str, String, ElementName)> {
+    let v = r.version;
+    let mut out = vec![];
+    for t in &r.order {
+        let listed: Vec<ElementName> = t.sub_element_spec_iter().filter(|(_, _, mask, _)| v.compatible(*mask)).map(|x| x.0).collect();
+        let found: Vec<ElementName> = sub_specs(*t, v).iter().map(|s| s.name).collect();
+        for n in &listed {
+            if !found.contains(n) {
+                out.push(("listed-sub-element-not-found-by-lookup", format!("{t:?}"), *n));
+            }
         }
-        if let Some((etype, indices)) = t.find_sub_element(name, v as u32) {
-            let mask = t.get_sub_element_version_mask(&indices).unwrap_or(mask);
-            out.push(SubSpec { name, etype, indices, mask });
+        for n in &found {
+            if !listed.contains(n) {
+                out.push(("sub-element-found-by-lookup-is-not-listed", format!("{t:?}"), *n));
+            }
         }
     }
     out
